@@ -633,6 +633,17 @@ class Exec(Engine):
         operands = [node.left] + list(node.comparators)
 
         def after(s, vs):
+            if not s.spec and any(isinstance(v, VU) for v in vs) and \
+                    any(isinstance(op, (ast.Lt, ast.LtE, ast.Gt, ast.GtE)) for op in node.ops):
+                # ordering comparisons on a union: decide the alternative first (the obligation
+                # "not None" must be proved under the alternative's guard)
+                res = []
+                for s2, ws in self.force_all(s, vs):
+                    try:
+                        res.extend(after(s2, ws))
+                    except PathDead:
+                        pass
+                return res
             conj = []
             for op, a, b in zip(node.ops, vs, vs[1:]):
                 conj.append(self.compare(s, op, a, b, node))
@@ -656,7 +667,7 @@ class Exec(Engine):
             for c, x in (a.alts if isinstance(a, VU) else b.alts):
                 try:
                     r = self.compare(st, op, x, b, node) if isinstance(a, VU) else self.compare(st, op, a, x, node)
-                except PathDead:
+                except (PathDead, Unsupported):
                     if st.spec:
                         continue      # undefined on this alternative: false in a specification
                     raise
